@@ -170,7 +170,7 @@ func (e *Engine) reportFindingInQuery(st *State, kind, label, site string) {
 		return
 	}
 	e.findKey[key] = true
-	f := &Finding{Harness: e.cfg.Name, Kind: kind, Label: label, Site: site, Known: append([]string(nil), st.known...),
+	f := &Finding{Harness: e.cfg.Fn, Kind: kind, Label: label, Site: site, Known: append([]string(nil), st.known...),
 		Params: e.cfg.Params, Status: "candidate"}
 	tr := st.trace
 	if len(tr) > 24 {
